@@ -294,7 +294,9 @@ def d3(ctx):
     add = [c for c in w.calls if c.callee and c.callee.name == "add_slot"]
     if not rem:
         # a different scoping discipline (e.g. a cloned map per scope) — accept only if no entry of the shared map is dropped
-        ctx.ok("no-removal", "Bind::weak_shape_impl never removes entries from the shared numbering map", where_of(w))
+        shared_add = [c for c in add if role_mentions_param(w.role_of_operand(c.args[1]), "m")] if add else []
+        ctx.check(not shared_add, "binder-entry-dropped", "Bind::weak_shape_impl never touches the shared numbering map for its binder",
+                  "Bind::weak_shape_impl numbers the binder in the shared map and never removes the entry after the scope: a later free occurrence of the same name is numbered as if it were bound", where_of(w))
         return
     gets = [c for c in w.calls if c.callee and c.callee.name == "get" and add and w.dominated_by(add[0].bb, [c.bb]) and role_mentions_field(w.role_of_operand(c.args[1]), "slot")]
     ok_saved = bool(gets)
@@ -309,8 +311,21 @@ def d3(ctx):
         r = w.role_of_operand(t["discr"])
         if r[0] == "discr" and strip_role(r[1])[0] == "call" and strip_role(r[1])[4] == g.bb:
             some_e += C.variant_edges(w, sb, 1)
-    ins = {c.bb for c in w.calls if c.callee and c.callee.name == "insert" and role_mentions_call(w.role_of_operand(c.args[2]), "get") and w.dominated_by(c.bb, [rem[0].bb])}
+    scope = [c.bb for c in w.calls if c.callee and c.callee.name == "weak_shape_impl" and not w.blocks[c.bb]["cleanup"]]
+    ins = {c.bb for c in w.calls if c.callee and c.callee.name == "insert" and role_mentions_call(w.role_of_operand(c.args[2]), "get") and scope and w.dominated_by(c.bb, scope)}
     ok = bool(some_e) and bool(ins) and w.must_pass(some_e, w.return_blocks(), ins)
+    # and when there was no outer entry, the binder's own entry does not survive its scope
+    none_e = []
+    for sb in w.switch_blocks():
+        t = w.blocks[sb]["term"]
+        r = w.role_of_operand(t["discr"])
+        if r[0] == "discr" and strip_role(r[1])[0] == "call" and strip_role(r[1])[4] == g.bb:
+            none_e += C.variant_edges(w, sb, 0)
+    remb = {c.bb for c in rem if scope and w.dominated_by(c.bb, scope)}
+    if none_e and scope:
+        after_scope = [x for sb_ in scope for x in w.after(sb_)]
+        ctx.check(bool(remb) and w.must_pass(after_scope, w.return_blocks(), remb | ins), "binder-entry-dropped", "without an outer entry the binder's entry is removed after the scope",
+                  "Bind::weak_shape_impl can leave the binder's entry in the numbering map after its scope: a later free occurrence of the same name is numbered as if it were bound", where_of(w))
     ctx.check(ok, "outer-binding-restored", "after the scope the saved outer entry is re-inserted on every path", "Bind::weak_shape_impl saves the outer entry but does not restore it after the scope on every path", where_of(w))
 
 
